@@ -73,7 +73,164 @@ def fixed_cases():
        ["att 1 me 0", "att 3 me 0", "att 2 p2 0", "unsub 2 p2", "unloadall", "att 4 p1 0", "unloadall"], "rm")
     mk("f_p2p_reinvite", 2, {1: 1, 2: 1, 3: 2, 4: 2},
        ["att 1 me 0", "att 3 me 0", "att 2 p2 0", "att 4 p1 0", "unsub 2 p2", "given 4 p1 1 31", "unloadall"], "rm")
+    # slow consumers (Sys/PresStuckC10.v): a user's second session is stuck while the first one notes / others publish
+    mk("f_stuck_grp", 2, {1: 1, 2: 1, 3: 1, 4: 2, 5: 2},
+       ["att 1 me 0", "att 4 me 0", "new 5 1 0", "given 5 g1 1 47", "att 2 g1 0", "att 3 g1 0", "pub 5 g1", "clog 2",
+        "note 3 g1 read 1", "det 3 g1", "unclog 2", "att 2 g1 0", "att 3 g1 0", "clog 3", "pub 5 g1", "note 2 g1 recv 2",
+        "clog 2", "note 5 g1 kp 0", "disc 2", "unloadall"], "stuck")
+    mk("f_stuck_p2p", 2, {1: 1, 2: 1, 3: 1, 4: 2, 5: 2},
+       ["att 1 me 0", "att 4 me 0", "att 2 p2 0", "att 3 p2 0", "att 5 p1 0", "pub 5 p1", "clog 3", "note 2 p2 recv 1",
+        "note 2 p2 read 1", "unclog 3", "att 3 p2 0", "clog 2", "pub 5 p1", "pub 3 p2", "det 3 p2", "unclog 2", "unloadall"], "stuck")
+    mk("f_stuck_me", 2, {1: 1, 2: 1, 3: 1, 4: 2, 5: 2},
+       ["att 1 me 0", "att 2 me 0", "att 4 me 0", "att 3 p2 0", "clog 2", "att 5 p1 0", "pub 5 p1", "det 4 me", "att 4 me 0",
+        "det 1 me", "unclog 2", "unloadall"], "stuck")
     return res
+
+
+def gen_stuck(rng, sid):
+    """Slow consumers: user u has an observer session 3u-2 (attached to 'me' only) and two worker sessions 3u-1, 3u
+    (attached to p2p/group topics only, both in the foreground).  Sessions get clogged (the connection stops reading,
+    the send queue is full: every queueOut on it fails and the next fan-out of a topic detaches it) while the user's
+    OTHER session and other users note (read/recv/kp), publish, delete messages, change permissions, evict and
+    unsubscribe - every handler that fans out to the attached sessions runs with a drop in the middle.  A clogged
+    session is attached either to 'me' only or to p2p/group topics only, so that no topic reads Session.subs of a
+    session another topic is detaching at that moment (getSub(SkipTopic) in broadcastToSessions races with the drop
+    otherwise: both outcomes are legal, the comparison with the model would be flaky)."""
+    sc = Scn(sid)
+    sc.profile = "stuck"
+    # permission changes / removals while a session is clogged: the {pres acs} they fan out is not emitted by the
+    # model (manifest), so the comparison of such a history stops there; two thirds of the histories keep them for
+    # the moments when nothing is clogged and are compared to the end
+    perm_while_clogged = rng.random() < 0.34
+    n = rng.choice([2, 2, 3])
+    sc.nusers = n
+    users = list(range(1, n + 1))
+    for u in users:
+        sc.sessions[3 * u - 2] = u
+        sc.sessions[3 * u - 1] = u
+        sc.sessions[3 * u] = u
+    ops = []
+    for u in users:
+        if rng.random() < 0.85:
+            ops.append(("att", [3 * u - 2, "me", 0]))
+    kind = rng.choice(["p2p", "grp", "grp", "both"])
+    refs = {}
+    pubs = {}
+    owner = None
+
+    def key(u, ref):
+        return ref if ref[0] == "g" else "p%d.%d" % (min(u, int(ref[1:])), max(u, int(ref[1:])))
+
+    def workers(u):
+        return [3 * u - 1, 3 * u]
+    if kind in ("p2p", "both"):
+        a, b = rng.sample(users, 2)
+        for (x, y) in ((a, b), (b, a)):
+            refs.setdefault(x, set()).add("p%d" % y)
+            for w in workers(x):
+                if w == 3 * x - 1 or rng.random() < 0.85:
+                    ops.append(("att", [w, "p%d" % y, 0]))
+    if kind in ("grp", "both"):
+        owner = rng.choice(users)
+        ops.append(("new", [3 * owner - 1, 1, 0]))
+        refs.setdefault(owner, set()).add("g1")
+        if rng.random() < 0.7:
+            ops.append(("att", [3 * owner, "g1", 0]))
+        for v in users:
+            if v != owner:
+                ops.append(("given", [3 * owner - 1, "g1", v, rng.choice([47, 47, 47, 111, 39, 45])]))
+                refs.setdefault(v, set()).add("g1")
+                for w in workers(v):
+                    if rng.random() < 0.85:
+                        ops.append(("att", [w, "g1", 0]))
+
+    def someref(u):
+        c = sorted(refs.get(u, ()))
+        return rng.choice(c) if c else None
+
+    def do_pub(u=None):
+        u = u or rng.choice(users)
+        ref = someref(u)
+        if ref:
+            ops.append(("pub", [rng.choice(workers(u)), ref]))
+            pubs[key(u, ref)] = pubs.get(key(u, ref), 0) + 1
+    for _ in range(rng.randint(1, 2)):
+        do_pub()
+    clogged = []
+
+    def do_clog():
+        u = rng.choice(users)
+        sx = rng.choice(workers(u) * 3 + [3 * u - 2])
+        if sx not in clogged and len(clogged) < 2:
+            ops.append(("clog", [sx]))
+            clogged.append(sx)
+    do_clog()
+    for i in range(rng.randint(9, 22)):
+        r = rng.random()
+        # the acting user: mostly one who has a clogged session (its other session acts), else anybody
+        cu = [sc.sessions[x] for x in clogged]
+        u = rng.choice(cu) if cu and rng.random() < 0.55 else rng.choice(users)
+        free = [w for w in workers(u) if w not in clogged] or workers(u)
+        sx = rng.choice(free)
+        ref = someref(u)
+        if r < 0.10:
+            do_clog()
+        elif r < 0.16 and clogged:
+            ops.append(("unclog", [clogged.pop(rng.randrange(len(clogged)))]))
+        elif ref is None:
+            continue
+        elif r < 0.44:
+            top = pubs.get(key(u, ref), 0)
+            what = rng.choice(["kp", "read", "read", "recv", "recv"])
+            seq = 0 if what == "kp" else rng.choice([top, top, top, max(1, top - 1), 1, top + 1])
+            ops.append(("note", [sx, ref, what, seq]))
+        elif r < 0.58:
+            do_pub(u)
+        elif r < 0.63:
+            ops.append(("delmsg", [sx, ref, rng.choice([0, 1])]))
+        elif r < 0.79 and r >= 0.63 and clogged and not perm_while_clogged:
+            do_pub(u)
+        elif r < 0.71:
+            if ref[0] == "p":
+                ops.append(("want", [sx, ref, rng.choice([23, 31, 31, 29])]))
+            elif u == owner:
+                ops.append(("want", [sx, ref, rng.choice([255, 247, 253])]))
+            else:
+                ops.append(("want", [sx, ref, rng.choice([47, 39, 45, 47])]))
+        elif r < 0.76 and owner is not None:
+            v = rng.choice(users)
+            if v != owner:
+                ops.append(("given", [rng.choice([w for w in workers(owner) if w not in clogged] or workers(owner)), "g1", v,
+                            rng.choice([47, 47, 39, 45, 111, 46])]))
+        elif r < 0.79 and owner is not None and ref[0] == "g":
+            v = rng.choice(users)
+            if v != owner:
+                ops.append(("evict" if rng.random() < 0.6 else "unsub", [3 * owner - 1, "g1", v] if rng.random() < 0.6 else [sx, "g1"]))
+                if ops[-1][0] == "evict" and len(ops[-1][1]) == 2:
+                    ops[-1] = ("unsub", ops[-1][1])
+                elif ops[-1][0] == "unsub" and len(ops[-1][1]) == 3:
+                    ops[-1] = ("evict", ops[-1][1])
+        elif r < 0.88:
+            ops.append(("att", [rng.choice(workers(u)), ref, 0]))
+        elif r < 0.93:
+            ops.append(("det", [sx, ref]))
+        elif r < 0.96:
+            d = rng.choice(clogged) if clogged and rng.random() < 0.6 else rng.choice(workers(u) + [3 * u - 2])
+            ops.append(("disc", [d]))
+            if d in clogged:
+                clogged.remove(d)
+        elif r < 0.98:
+            ops.append(("att" if rng.random() < 0.5 else "det", [3 * u - 2, "me"] + ([0] if False else [])))
+            if ops[-1][0] == "att":
+                ops[-1] = ("att", [3 * u - 2, "me", 0])
+        else:
+            ops.append(("unloadall", []))
+    for c in clogged:
+        if rng.random() < 0.5:
+            ops.append(("unclog", [c]))
+    ops.append(("unloadall", []))
+    sc.ops = ops
+    return sc
 
 
 def gen_rm(rng, sid):
@@ -535,7 +692,11 @@ RULE = ("fixed handshake/finding/removal histories first, then seeded random mul
         "modes (muted, P without R, D), some messages, then p2p/group subscriptions deleted ({leave unsub}, {del sub}, ban by "
         "{set sub user mode} without J) while the topic stays loaded, followed by {note kp|read|recv} with sequence numbers around "
         "lastID, publishes, hard/soft message deletions, mute/un-mute, re-invitations, re-subscription of the removed user, "
-        "attach/detach/disconnect of the remaining members; after each op: "
+        "attach/detach/disconnect of the remaining members; profile stuck (slow consumers): per user an observer session on 'me' "
+        "and two foreground worker sessions on p2p/group topics; up to two sessions clogged at a time (drain loop stopped, "
+        "Session.send filled to capacity: every queueOut fails, the next fan-out of a topic detaches the session), then "
+        "{note read|recv|kp}, {pub}, {del msg}, permission changes, evict/unsub, detach/re-attach/disconnect/unclog by the "
+        "user's other session and by other users; after each op: "
         "sound quiescence, then pres frames per session, perSubs tables, perUser.online, attached sessions, stored rows; "
         "non-trivial = at least one {pres} frame delivered; distinct by (ops, frames)")
 
@@ -569,6 +730,8 @@ def run(ctx):
                 scns.append(gen_scn(ctx.rng, "%s%d" % (prof, i), prof))
         for i in range(200 if quick else 4000):
             scns.append(gen_rm(ctx.rng, "rm%d" % i))
+        for i in range(150 if quick else 3000):
+            scns.append(gen_stuck(ctx.rng, "stuck%d" % i))
     t0 = time.time()
     rc, impl, log = run_impl(ctx, scns)
     t_impl = time.time() - t0
@@ -608,16 +771,28 @@ def run(ctx):
                       {"head": small.head, "ops": [list(o) for o in small.ops], "law": law, "detail": detail, "cases_failing": len(lst)})
     mism = []
     unmodelled = 0
+    unmodelled_acs = 0
     for sc in scns:
         io, mo = impl[sc.id], model.get(sc.id, [])
         if len(io) != len(mo):
             mism.append((sc, -1, [("shape", len(io), len(mo))]))
             continue
+        clogged_now = set()
         for k in range(len(io)):
             if mo[k]["unmodelled"]:
                 # the model does not follow this code path (manifest): the comparison of this history stops here;
                 # the laws above were evaluated on the whole implementation trace all the same
                 unmodelled += 1
+                break
+            kd, ar = sc.ops[k]
+            if kd == "clog" and not io[k]["skipped"]:
+                clogged_now.add(str(ar[0]))
+            elif kd in ("unclog", "disc"):
+                clogged_now.discard(str(ar[0]))
+            elif clogged_now and kd in ("want", "given", "evict", "unsub", "new") and not io[k]["skipped"]:
+                # a permission change / removal fans out {pres acs}, whose emission the model does not follow: with a
+                # clogged session around it decides who is dropped next - same rule as above
+                unmodelled_acs += 1
                 break
             d = diff_op(io[k], mo[k])
             if d:
@@ -659,15 +834,20 @@ def run(ctx):
         "samples": [{"head": sc.head, "ops": sc.ops, "impl_frames_last_op": impl[sc.id][-1]["frames"] if impl[sc.id] else []} for sc in scns[:2]],
         "traces_validated_against_impl": len(scns), "correspondence_mismatches": len(mism),
         "histories_compared_up_to_an_unmodelled_request": unmodelled,
+        "histories_compared_up_to_a_permission_change_with_a_clogged_session": unmodelled_acs,
         "monitor_failures": {l: len(v) for l, v in fails.items()},
         "input_distribution": {"op_kinds": kinds, "pres_frames_by_what": whats,
-                               "profiles": {p: sum(1 for s in scns if s.profile == p) for p in ("fixed", "fg", "bkg", "race", "rm")}},
+                               "profiles": {p: sum(1 for s in scns if s.profile == p) for p in ("fixed", "fg", "bkg", "race", "rm", "stuck")}},
         "impl_wall_s": round(t_impl, 1),
         "trusted_base": [
             "harness/overlay/server/zz_verif_c10_test.go (+ helpers of zz_verif_topic_test.go): drives the real Hub/Topic/Session code through "
             "Session.dispatchRaw; quiescence by goroutine-state snapshot; idle unload = the topic's own killTimer reset to 1ns (real "
             "handleTopicTimeout); idle timers of other topics pushed to 1h at quiescence; Session.background set directly (nothing in "
             "this code base sets it for ordinary sessions); unload1/unload2 replay one legal schedule of handleTopicTimeout by hand",
+            "clog/unclog (zz_verif_c10_test.go pClogC10x): the session's drain loop is stopped through its own stop channel and "
+            "Session.send is filled to capacity with dummy frames; while clogged a goroutine still serves Session.detach (one legal "
+            "schedule of a slow writer); a clogged session sends no requests; the comparison of a history stops at the first "
+            "permission change executed while a session is clogged ({pres acs} emission not modelled), the laws do not",
             "harness/overlay/server/db/memverif: in-memory adapter (store contract modelled, not verified)",
             "tools/props/c10.py monitors: python restatement of C10 on the implementation's dumps",
             "model scope (coq/Sys/Pres.v): users with default access JRWPAS, groups with defacs JRWPS, {pres} what in {on, off, ?unkn, ?none, "
